@@ -289,7 +289,10 @@ impl DIDUrl {
     let url: RelativeDIDUrl = {
       let mut url: RelativeDIDUrl = RelativeDIDUrl::new();
       url.set_path(Some(did_url.path()))?;
-      url.set_query(did_url.query())?;
+      // `set_query` ignores one leading '?'; here the delimiter is already stripped, so a '?' that starts the
+      // query value itself ("did:example:1??a") must be kept.
+      let query: Option<String> = did_url.query().filter(|query| !query.is_empty()).map(|query| format!("?{query}"));
+      url.set_query(query.as_deref())?;
       url.set_fragment(did_url.fragment())?;
       url
     };
